@@ -996,6 +996,10 @@ def check_ctor(case):
         elif fam == 'pupil':
             dims, diam, q, na, fl = case['dims'], case['diameter'], case['q'], case['na'], case['fl']
             pg = hcipy.make_pupil_grid(dims, diam)
+            Pp = G.points(pg)
+            if not close_arr(np.asarray(pg.delta, dtype=float) * np.asarray(dims, dtype=float), np.full(2, diam), diam) or \
+                    not close_arr(Pp.min(axis=0) + Pp.max(axis=0), np.zeros(2), max(1.0, diam)):
+                bad.append(('pupil-extent', 'make_pupil_grid(%r, %r) does not cover the diameter symmetrically about the origin on both axes' % (dims, diam)))
             g = hcipy.make_focal_grid_from_pupil_grid(pg, q, na, fl, 1)
             ok, d = has_origin(g) if g.size > 0 else (True, 0.0)
             if not ok:
@@ -1059,6 +1063,19 @@ def check_ctor(case):
                 st = 'ok'
             except Exception as e:  # noqa
                 g, st = None, 'err ' + G.errkind(e)
+            # the documented resolution, independently: given; else f_number * wavelength with f_number given or
+            # focal_length / pupil_diameter; else 1 if nothing was given; an incomplete set raises ValueError
+            if case['sr'] is not None:
+                want = case['sr']
+            else:
+                fn = case['fnum'] if case['fnum'] is not None else (case['fl'] / case['pd'] if case['pd'] is not None and case['fl'] is not None else None)
+                want = (1.0 if case['wl'] is None else 'err') if fn is None else ('err' if case['wl'] is None else fn * case['wl'])
+            if want == 'err' and g is not None:
+                bad.append(('focal-resolution incomplete', 'make_focal_grid(%r) accepted an incomplete set of arguments' % (kw,)))
+            elif want != 'err' and g is None:
+                bad.append(('focal-resolution raises', 'make_focal_grid(%r) raised %s' % (kw, st[4:])))
+            elif g is not None and not close_arr(np.asarray(g.delta, dtype=float), np.full(2, want / q), max(1.0, want / q)):
+                bad.append(('focal-resolution', 'make_focal_grid(q=%r, %r) has sample pitch %r, documented resolution/q = %r' % (q, kw, [float(v) for v in g.delta], want / q)))
             lines.append('C11 focalfull %s %s %s' % (rat_list([q, q]), rat_list([na, na]), ' '.join('-' if case[k_] is None else rat(case[k_]) for k_ in ('sr', 'fnum', 'pd', 'fl', 'wl'))))
             checks.append((len(lines) - 1, ('status', st)))
             if g is not None:
